@@ -41,6 +41,7 @@ type capSpec struct {
 	allowFailMid bool // the producer allows failure and its first command exits 3 after printing
 	pos      int  // extra stages before the producer (DAG position)
 	consumers int
+	builtinConsumer bool // the consumers use shell builtins only (a variable of 128 KiB or more cannot be passed to exec)
 }
 
 func shellQuote(b []byte) string {
@@ -115,6 +116,9 @@ func capCase(col *Collector, s capSpec, tag string) {
 		outFiles[i] = filepath.Join(dir, fmt.Sprintf("seen%d", i))
 		// printenv is byte-exact for every name (also names the shell cannot expand, e.g. starting with a digit)
 		c := task.FromCommands(fmt.Sprintf("printenv %s > %s; echo rc=$? >> %s.rc", shellQuote([]byte(envName)), outFiles[i], outFiles[i]))
+		if s.builtinConsumer {
+			c = task.FromCommands(fmt.Sprintf("printf '%%s\\n' \"$%s\" > %s; echo rc=$? >> %s.rc", envName, outFiles[i], outFiles[i]))
+		}
 		c.Name = fmt.Sprintf("consumer%d", i)
 		stages = append(stages, &scheduler.Stage{Name: c.Name, Task: c, DependsOn: []string{"producer"}})
 	}
@@ -285,6 +289,16 @@ func runC11(col *Collector, tier string, seed int64) {
 		}
 		specs = append(specs, capSpec{name: "big", nCmds: 1, chunks: [][]byte{b}, consumers: 1})
 		tags = append(tags, "large")
+	}
+	// beyond the kernel's limit for one exec argument (128 KiB): handed over unabridged to commands made of builtins
+	for _, size := range []int{131072 - 11, 131072, 300000} {
+		b := make([]byte, size)
+		for i := range b {
+			b[i] = "abcdefghijklmnopqrstuvwxyz0123456789 \n"[rng.Intn(38)]
+		}
+		b[size-1] = 'z'
+		specs = append(specs, capSpec{name: "huge", nCmds: 1, chunks: [][]byte{b}, consumers: 2, builtinConsumer: true})
+		tags = append(tags, "larger-than-an-exec-argument")
 	}
 	parallel(len(specs), 16, func(i int) { capCase(col, specs[i], tags[i]) })
 	for k := 0; k < 6; k++ {
